@@ -171,7 +171,7 @@ func lexSpec(src string) ([]tok, error) {
 			out = append(out, tok{"int", strconv.Itoa(int(r))})
 			i = j + 1
 		default:
-			ops := []string{"<==>", "==>", "::", "&&", "||", "==", "!=", "<=", ">=", "<<", "(", ")", "[", "]", ",", ".", ":", "+", "-", "*", "/", "%", "<", ">", "!", "?", "{", "}"}
+			ops := []string{"<==>", "==>", "::", "&&", "||", "==", "!=", "<=", ">=", "<<", "(", ")", "[", "]", ",", ".", ":", "+", "-", "*", "/", "%", "<", ">", "!", "?", "{", "}", "&"}
 			found := false
 			for _, op := range ops {
 				if strings.HasPrefix(src[i:], op) {
@@ -415,7 +415,7 @@ func (p *parser) parseMul() (Expr, error) {
 }
 
 func (p *parser) parseUnary() (Expr, error) {
-	if p.isOp("!") || p.isOp("-") || p.isOp("*") {
+	if p.isOp("!") || p.isOp("-") || p.isOp("*") || p.isOp("&") {
 		op := p.next().s
 		x, err := p.parseUnary()
 		if err != nil {
